@@ -869,6 +869,13 @@ class WorkerPool:
                     self.terminate()
                     raise
 
+        except BaseException:
+            # The call is cut short outside of the dispatch loop above (e.g., a KeyboardInterrupt while the workers are
+            # being started or joined). Make sure no worker or handler thread stays behind. This is a no-op when the
+            # workers were already terminated
+            self.terminate()
+            raise
+
         finally:
             if tqdm_manager_owner:
                 tqdm.set_lock(original_tqdm_lock)
@@ -1084,6 +1091,9 @@ class WorkerPool:
         send a sigkill.
         """
         if not self._workers:
+            # There are no workers (left), but the handler threads can still be around when we got interrupted while
+            # joining the workers
+            self._stop_handler_threads()
             return
 
         # Set exception thrown so workers know to stop fetching new tasks
@@ -1098,7 +1108,8 @@ class WorkerPool:
 
         # When we're working with threads we have to wait for them to join. We can't kill threads in Python
         if self.pool_params.start_method == 'threading':
-            threads = self._workers
+            # Workers that weren't created or started yet (we got interrupted while starting them) can't be joined
+            threads = [worker for worker in self._workers if worker is not None and worker.ident is not None]
         else:
             # Create cleanup threads such that processes can get killed simultaneously, which can save quite some time
             threads = []
